@@ -156,6 +156,9 @@ where
   /// Returns a `Future` that resolves to the message or an error if the
   /// channel is disconnected.
   pub fn recv(&self) -> RecvFuture<'_, (K, T)> {
+    if self.closed.load(Ordering::Relaxed) {
+      return self.consumer.recv_async_rejected();
+    }
     self.consumer.recv_async()
   }
 
@@ -243,7 +246,9 @@ where
 
   fn close_internal(&self) {
     if let Some(dispatcher) = self.dispatcher.upgrade() {
-      let topics_to_unsubscribe: Vec<K> = self.subscriptions.lock().drain().collect();
+      // Collect without draining: `unsubscribe` only acts on topics that are still
+      // in the local set.
+      let topics_to_unsubscribe: Vec<K> = self.subscriptions.lock().iter().cloned().collect();
       for topic in topics_to_unsubscribe {
         self.unsubscribe(&topic);
       }
@@ -326,14 +331,9 @@ where
   T: Send + Clone + 'static,
 {
   fn drop(&mut self) {
-    if let Some(dispatcher) = self.dispatcher.upgrade() {
-      let topics_to_unsubscribe: Vec<K> = self.subscriptions.lock().drain().collect();
-
-      for topic in topics_to_unsubscribe {
-        self.unsubscribe(&topic);
-      }
-
-      dispatcher.receiver_count.fetch_sub(1, Ordering::Relaxed);
+    // A handle that was closed explicitly has already left the channel.
+    if !self.closed.swap(true, Ordering::AcqRel) {
+      self.close_internal();
     }
   }
 }
@@ -348,6 +348,9 @@ where
   fn poll_next(self: Pin<&mut Self>, cx: &mut Context<'_>) -> Poll<Option<Self::Item>> {
     // We can use Pin::get_mut because we are not moving out of the future.
     let receiver = self.get_mut();
+    if receiver.closed.load(Ordering::Relaxed) {
+      return Poll::Ready(None);
+    }
     match Pin::new(&mut receiver.consumer.recv_async()).poll(cx) {
       Poll::Ready(Ok(value)) => Poll::Ready(Some(value)),
       Poll::Ready(Err(_)) => Poll::Ready(None), // Disconnected
